@@ -329,6 +329,19 @@ func checkC10(p *Program, r *Report) {
 			}
 			okReg := mapUpd != nil && chk != nil
 			if okReg {
+				// every input is registered: inside its own (input) loop the update is unconditional
+				for h := mapUpd.Block(); h != nil; h = h.Idom() {
+					if isLoopHeader(h) && h != ohdr && obody[h] {
+						for _, pr := range h.Preds {
+							if h.Dominates(pr) && !mapUpd.Block().Dominates(pr) {
+								okReg = false
+							}
+						}
+						break
+					}
+				}
+			}
+			if okReg {
 				// the checker call is on every iteration's path
 				for _, t := range tl {
 					if !chk.Block().Dominates(t) {
@@ -366,6 +379,16 @@ func checkC10(p *Program, r *Report) {
 						}
 					}
 				}
+				// every invocation matches the transaction against the current filter state (no memoised skip)
+				okAlways := false
+				for _, b := range checker.Blocks {
+					for _, in := range b.Instrs {
+						if c, ok := in.(*ssa.Call); ok && c.Call.StaticCallee() == exported && dominatesAllReturns(checker, b) {
+							okAlways = true
+						}
+					}
+				}
+				r.Add("C10.block", FnName(checker), "every (re-)check matches the transaction against the current filter", checker.Pos(), okAlways, "MatchTxAndUpdate runs on every path through the checker: the filter may have grown since an earlier match")
 				r.Add("C10.block", FnName(checker), "a match re-checks the transactions registered as spending this one", checker.Pos(), okRec, "recursive call on inputs[txid] dominated by a successful MatchTxAndUpdate")
 				// the matched index is recorded on the matched edge
 				okMark := false
@@ -389,5 +412,5 @@ func checkC10(p *Program, r *Report) {
 	r.Floor("C10.scanall", 2)
 	r.Floor("C10.outpoint", 1)
 	r.Floor("C10.flags", 2)
-	r.Floor("C10.block", 4)
+	r.Floor("C10.block", 5)
 }
